@@ -577,7 +577,7 @@ class Gen:
                     p["access"] = ch.choice(["public", "private"])
                     p["access_how"] = ch.choice(["stmt_after", "stmt_before"])
         # separate module procedures implemented in a submodule
-        if self.cfg["submodules"] and ch.bool(1, 4):
+        if self.cfg["submodules"] and (ch.bool(1, 4) or self.cfg.get("force_submodules")):
             i = {"d": "interface", "form": "explicit", "bodies": [], "doc": None}
             impls = []
             for _ in range(ch.count(1, 2)):
@@ -658,6 +658,13 @@ class Gen:
             for _ in range(ch.count(1, cfg["max_units"])):
                 kind = ch.weighted([(6, "module"), (2 if cfg["programs"] and not have_program else 0, "program"),
                                     (2 if cfg["extprocs"] else 0, "proc"), (1 if cfg["blockdata"] else 0, "blockdata")])
+                only = cfg.get("only_unit")
+                if only == "program":
+                    kind = "program" if not have_program else "proc"
+                elif only == "proc":
+                    kind = "proc"
+                elif only == "blockdata+module" and ch.bool():
+                    kind = "blockdata"
                 if kind == "module":
                     f["units"].append(self.module(proj))
                 elif kind == "program":
